@@ -142,6 +142,36 @@ def ob_install():
     return h
 
 
+def ob_install_many():
+    """several installed files whose install-plan sections interleave (data / configure / python ...): every one is listed exactly once"""
+    def h():
+        n = 3
+        sections = [None, 'configure', 'python']
+        entries = []
+        for i in range(n):
+            dt = sections[choose(3, 'data_type%d' % i)]
+            e = BK.InstallDataBase('/src/f%d' % i, 'share/' + sym_str(1, 'name%d' % i, alphabet='ab'), 'share/x%d' % i, None, '', None, dt)
+            entries.append(e)
+        idata = types.SimpleNamespace(build_dir='/bld', prefix='/usr', targets=[], data=entries, man=[], headers=[], install_subdirs=[], symlinks=[], emptydir=[])
+        be = types.SimpleNamespace(create_install_data=lambda: idata)
+        plan = MT.list_install_plan(None, None, be)
+        inst = MT.list_installed(None, None, be)
+        listed = {}
+        for sect, d in plan.items():
+            for p, ent in d.items():
+                p = getattr(p, 'v', p)
+                check(p not in listed, 'an installed file is listed once'); listed[p] = (sect, ent)
+        for e in entries:
+            check(e.path in listed, 'every installed data file appears in the install plan')
+            if e.path in listed:
+                check(listed[e.path][0] == (e.data_type or 'data'), 'under the section of its data type')
+                check(listed[e.path][1]['destination'] == e.install_path_name, 'with its destination')
+            check(e.path in inst, 'and in intro-installed')
+        check(len(listed) == n, 'nothing that is not installed is listed')
+        cover('done')
+    return h
+
+
 def ob_options():
     def h():
         st = O.OptionStore(False)
@@ -175,5 +205,6 @@ def obligations(tier):
                               labels=('done',), max_paths=5000000))
     out.append(Obligation('install-plan', ob_install(), dict(kinds='data | man | headers', install_path='1-2 chars over /ab', tag='None|runtime|devel|""', subproject='""|sub'),
                           labels=('data', 'man', 'headers')))
+    out.append(Obligation('install-plan/interleaved', ob_install_many(), dict(entries=3, sections='data | configure | python in any order'), labels=('done',)))
     out.append(Obligation('buildoptions', ob_options(), dict(options='project int/bool, system combo, builtin bool; symbolic values'), labels=('done',)))
     return out
